@@ -136,7 +136,9 @@ def make_case(rng, measure):
         sigma = None
     if sigma is not None:
         # overall magnitude of the noise covariance (physical units): the whitened measures do not depend on it
-        sigma = sigma * 10.0 ** float(gen.pick(rng, [-12, -9, -4, 0, 0, 0, 3, 6]))
+        # (small units are where absolute tolerances in shortcuts bite, so they get a third of the matrix cases)
+        expo = [-12, -11, -10, -9, -4, 0, 0, 3, 6] if sk == 'matrix' else [-12, -9, -4, 0, 0, 0, 3, 6]
+        sigma = sigma * 10.0 ** float(gen.pick(rng, expo))
     return dict(measure=measure, n_cond=n_cond, v1=v1, v2=v2, kind=kind, kind2=kind2, sk=sk, sigma=sigma)
 
 
